@@ -7,6 +7,9 @@ import (
 	"os"
 	"path/filepath"
 	"time"
+
+	"github.com/tableauio/tableau/store"
+	"google.golang.org/protobuf/types/known/timestamppb"
 )
 
 // ---------------------------------------------------------------------------
@@ -111,4 +114,45 @@ func init() {
 	})
 	regImpl("c20.gen", implC20Gen)
 	regImpl("c20.emitz", implC20Emitz)
+}
+
+// ---------------------------------------------------------------------------
+// corr.store.emitTimestamp: what EmitTimezones writes for one Timestamp, through the real store.MarshalToJSON
+// (protojson → tableau's rewrite of the JSON string), against Model.Rfc3339.format.
+//   c20.emitts <zone name> <transition table> <unix seconds> <nanos>
+// ---------------------------------------------------------------------------
+
+func init() {
+	regStream("corr.store.emitTimestamp", func(r *rand.Rand, n int, emit func(string, ...string)) {
+		names := []string{"UTC", "Asia/Shanghai", "America/New_York", "Asia/Kathmandu", "Asia/Kolkata", "Australia/Lord_Howe", "Europe/London", "America/St_Johns"}
+		nanos := []int64{0, 0, 0, 1, 10, 999999999, 500000000, 120000000, 123456789, 1000, 1000000, 90}
+		for i := 0; i < n; i++ {
+			z := zoneTable(names[r.Intn(len(names))])
+			var t int64
+			switch {
+			case len(z.trans) > 0 && r.Intn(3) == 0:
+				t = z.trans[r.Intn(len(z.trans))] + []int64{-3600, -1, 0, 1, 1799, 3600}[r.Intn(6)]
+			case r.Intn(6) == 0:
+				t = []int64{0, 1, -1, 59, 86399, -86400}[r.Intn(6)]
+			default:
+				t = r.Int63n(2600000000) - 590000000
+			}
+			if t < -600000000 { // minute-resolution offsets only: RFC 3339 cannot print the local-mean-time eras
+				t = -600000000 + r.Int63n(1000000)
+			}
+			emit("c20.emitts", z.name, z.enc, itoa(t), itoa(nanos[r.Intn(len(nanos))]))
+		}
+	})
+	regImpl("c20.emitts", func(a []string) string {
+		ts := &timestamppb.Timestamp{Seconds: mustInt(a[2]), Nanos: int32(mustInt(a[3]))}
+		out, err := store.MarshalToJSON(ts, &store.MarshalOptions{EmitTimezones: true, LocationName: a[0]})
+		if err != nil {
+			return "err"
+		}
+		var s string
+		if err := json.Unmarshal(out, &s); err != nil {
+			return "notstring " + encStr(string(out))
+		}
+		return encStr(s)
+	})
 }
